@@ -229,6 +229,39 @@ Proof.
   rewrite Hu, Hv, Huv. unfold r. lra.
 Qed.
 
+(* the same branch as the repaired variant [cubic_one_root_repaired] computes it: the
+   non-cancelling cube root u, the other one as -d0/u *)
+Lemma dep_one_root_stable (d0 de d : R) : de * de + d = -4 * (d0 * d0 * d0) -> d < 0 ->
+  let sq := sqrt (-1 * / 4 * d) in
+  let r := -1 * / 2 * de in
+  let u := Rcbrt (r + Rcopysign sq r) in
+  let v := if Req_EM_T u 0 then 0 else - d0 / u in
+  let t1 := u + v in
+  u <> 0 /\ t1 * t1 * t1 + 3 * d0 * t1 + de = 0.
+Proof.
+  intros Hid Hd sq r u v t1.
+  assert (Hsq0 : 0 < sq) by (apply sqrt_lt_R0; lra).
+  assert (Hsq : sq * sq = -1 * / 4 * d) by (apply sqrt_sqrt; lra).
+  set (s := Rcopysign sq r) in *.
+  assert (Hs2 : s * s = sq * sq) by apply Rcopysign_sqr.
+  assert (Hu : u * u * u = r + s) by apply Rcbrt_cube.
+  assert (Hrs : r + s <> 0).
+  { unfold s. destruct (Rle_dec 0 r).
+    - rewrite Rcopysign_sign_nonneg by assumption. rewrite Rabs_pos_eq by lra. lra.
+    - rewrite Rcopysign_sign_neg by lra. rewrite Rabs_pos_eq by lra. lra. }
+  assert (Hu0 : u <> 0) by (intro E; rewrite E in Hu; lra).
+  split; [exact Hu0|].
+  unfold t1, v. destruct (Req_EM_T u 0); [contradiction|].
+  set (w := - d0 / u). assert (Huw : u * w = - d0) by (unfold w; field; exact Hu0).
+  (* w^3 = -d0^3 / u^3 = (r^2 - s^2)/(r + s) = r - s *)
+  assert (Hw : w * w * w = r - s).
+  { apply Rmult_eq_reg_l with (u * u * u); [|rewrite Hu; exact Hrs].
+    replace (u * u * u * (w * w * w)) with ((u * w) * (u * w) * (u * w)) by ring.
+    rewrite Huw, Hu. unfold r in *. nra. }
+  replace ((u + w) * (u + w) * (u + w)) with (u * u * u + w * w * w + 3 * (u * w) * (u + w)) by ring.
+  rewrite Hu, Hw, Huw. unfold r. lra.
+Qed.
+
 (* the one-root branch returns the only real root *)
 Lemma dep_one_root_unique (d0 de d t1 t : R) : de * de + d = -4 * (d0 * d0 * d0) -> d < 0 ->
   t1 * t1 * t1 + 3 * d0 * t1 + de = 0 -> t * t * t + 3 * d0 * t + de = 0 -> t = t1.
@@ -914,4 +947,24 @@ Proof.
   unfold Rmax. destruct (Rle_dec (IZR z - 1) 0).
   - replace (Ztrunc 0) with 0%Z by (symmetry; apply (Ztrunc_IZR 0)). lia.
   - rewrite <- minus_IZR, Ztrunc_IZR. lia.
+Qed.
+
+(** the repaired variant of the one-root branch (not in the code) is the same real function *)
+Lemma cubic_one_root_repaired_eq (c0 c1 c2 : R) :
+  let d0 := - c2 * c2 + c1 in
+  let d1 := - c1 * c2 + c0 in
+  let d2 := c2 * c0 - c1 * c1 in
+  4 * d0 * d2 - d1 * d1 < 0 ->
+  cubic_one_root_repaired c0 c1 c2 = cubic_one_root_pinned c0 c1 c2.
+Proof.
+  cbv zeta. intro Hd. pose proof (disc_identity c0 c1 c2) as Hid. cbv zeta in Hid.
+  unfold cubic_one_root_repaired, cubic_one_root_pinned. sv_unfold. cbv [Reqb].
+  set (d0 := - c2 * c2 + c1) in *. set (d1 := - c1 * c2 + c0) in *.
+  set (d2 := c2 * c0 - c1 * c1) in *. set (d := 4 * d0 * d2 - d1 * d1) in *.
+  set (de := -2 * c2 * d0 + d1) in *.
+  destruct (dep_one_root_stable d0 de d Hid Hd) as [_ Hs]. cbv zeta in Hs.
+  pose proof (dep_one_root d0 de d Hid Hd) as Hp. cbv zeta in Hp.
+  f_equal. revert Hs.
+  match goal with |- context [Req_EM_T ?u 0] => destruct (Req_EM_T u 0) end;
+    intro Hs; eapply dep_one_root_unique; eauto.
 Qed.
